@@ -72,21 +72,44 @@ class TLCResult:
         return self.rc == 0 and self.violated is None
 
 
-_REC_START = '<<"REC"'
+_REC_RE = re.compile(r'<<\s*"REC"')
+_JREC_RE = re.compile(r'^"JREC(.*)"\s*$', re.M)
+
+
+def _unescape(t: str) -> str:
+    out = []
+    i = 0
+    n = len(t)
+    while i < n:
+        c = t[i]
+        if c == "\\" and i + 1 < n:
+            nx = t[i + 1]
+            out.append({"n": "\n", "t": "\t"}.get(nx, nx))
+            i += 2
+        else:
+            out.append(c)
+            i += 1
+    return "".join(out)
 
 
 def extract_records(out: str) -> list:
-    """All `<<"REC", ...>>` tuples printed with PrintT, parsed by bracket matching."""
+    """Records printed by the specification: `PrintT("JREC" \\o ToJson(v))` lines (one JSON value per
+    line) and `PrintT(<<"REC", ...>>)` tuples (parsed by bracket matching, TLC wraps them)."""
     recs = []
+    for m in _JREC_RE.finditer(out):
+        try:
+            recs.append(json.loads(_unescape(m.group(1))))
+        except json.JSONDecodeError as e:  # pragma: no cover - machinery failure
+            raise MachineryError(f"cannot parse TLC JSON record: {e}: {m.group(1)[:200]}") from e
     i = 0
     while True:
-        j = out.find(_REC_START, i)
-        if j < 0:
+        m = _REC_RE.search(out, i)
+        if not m:
             break
         try:
-            v, end = tlaval.parse_prefix(out, j)
+            v, end = tlaval.parse_prefix(out, m.start())
         except tlaval.ParseError as e:  # pragma: no cover - machinery failure
-            raise MachineryError(f"cannot parse TLC record at {j}: {e}") from e
+            raise MachineryError(f"cannot parse TLC record at {m.start()}: {e}") from e
         recs.append(v[1:])
         i = end
     return recs
